@@ -1,8 +1,8 @@
 (** C01 - Results do not depend on the container format (theorem side).
     The model of the shared glue is Model/Format.v: the five containers [check_format] accepts,
     their denotation [den], and [to_csr] = what [sparse.csr_matrix(x)] produces.
-    Not expressible here and therefore decided by the harness only: that no call modifies its
-    arguments (aliasing), and that each estimator really starts with [check_format].
+    That no call modifies its arguments: section 8 (frame theorem of the alias analysis + the pinned facts of
+    Gen/ArgMut.v) and run-time snapshots; that each estimator really starts with [check_format]: harness only.
     This file contains only statements closed by [exact], their assumptions, and examples. *)
 From Coq Require Import Permutation Sorted.
 From SKN Require Import Base.Util Model.Bfs Model.Format Proofs.BfsProofs Proofs.FormatProofs.
@@ -402,3 +402,230 @@ Proof.
     destruct i, j; vm_compute; reflexivity.
   - split; vm_compute; [reflexivity|discriminate].
 Qed.
+
+(* -------------------------------------------------------------------------------------------------- *)
+(** * 8. "No call modifies anything the caller passed in" - the static tie.
+
+    Model/ArgFrame.v: a tiny imperative language over a heap of arrays (locations -> list Z; a variable is a VIEW =
+    location + offset) with alias [x := y], slice view [x := y[off:]], fresh copy, pure computation into a fresh
+    buffer, in-place write [x[i] := e], branch, and call (inlined: the body runs in a new frame whose formals are bound
+    to the views of the actuals; the result is bound to the view of the returned variable), and the may-alias /
+    may-mutate analysis [may_mutate] (per variable the set of PARAMETERS whose buffer it may share; strong updates on
+    names, joins at branches, calls analysed in the abstract frame built from the alias sets of the actuals).
+    harness/translators/argmut.py runs that analysis (same abstract domain, plus summaries / fixed points for Python's
+    loops, attributes, classes and Cython kernels - rules and trusted base in its header) over every function of
+    /repo's working tree and writes Gen/ArgMut.v; the obligations at the end pin its output. *)
+From Coq Require String.
+From SKN Require Model.ArgFrame Proofs.ArgFrameProofs Gen.ArgMut.
+Set Warnings "-notation-overridden".
+
+(** FRAME.  For every program, every entry environment (parameters bound to locations of the heap; two parameters may
+    share a location) and every heap: if the analysis reports that no parameter may be mutated, a terminating run
+    leaves EVERY array of the entry heap unchanged. *)
+Theorem arg_frame_all (p : ArgFrame.prog) (e0 : ArgFrame.env) (h0 : ArgFrame.heap) (e' : ArgFrame.env) (h' : ArgFrame.heap) :
+  ArgFrame.wf_entry e0 h0 ->
+  ArgFrame.exec_prog p (e0, h0) = Some (e', h') ->
+  ArgFrame.may_mutate e0 p = [] ->
+  forall l, l < length h0 -> nth_error h' l = nth_error h0 l.
+Proof. exact (ArgFrameProofs.frame_all p e0 h0 e' h'). Qed.
+Print Assumptions arg_frame_all.
+
+(** ... and per location / per parameter: an array of the entry heap is unchanged as soon as no parameter bound to it
+    at entry is in the reported set (the report is exact about WHICH arguments may be written). *)
+Theorem arg_frame_loc (p : ArgFrame.prog) (e0 : ArgFrame.env) (h0 : ArgFrame.heap) (e' : ArgFrame.env) (h' : ArgFrame.heap)
+        (l : ArgFrame.loc) :
+  ArgFrame.wf_entry e0 h0 ->
+  ArgFrame.exec_prog p (e0, h0) = Some (e', h') ->
+  l < length h0 ->
+  (forall q o, ArgFrame.lookup q e0 = Some (l, o) -> ~ In q (ArgFrame.may_mutate e0 p)) ->
+  nth_error h' l = nth_error h0 l.
+Proof. exact (ArgFrameProofs.frame_loc p e0 h0 e' h' l). Qed.
+Print Assumptions arg_frame_loc.
+
+Theorem arg_frame_param (p : ArgFrame.prog) (e0 : ArgFrame.env) (h0 : ArgFrame.heap) (e' : ArgFrame.env) (h' : ArgFrame.heap)
+        (x : ArgFrame.var) (l : ArgFrame.loc) (o : nat) :
+  ArgFrame.wf_entry e0 h0 -> ArgFrame.exec_prog p (e0, h0) = Some (e', h') ->
+  ArgFrame.lookup x e0 = Some (l, o) ->
+  (forall q o', ArgFrame.lookup q e0 = Some (l, o') -> ~ In q (ArgFrame.may_mutate e0 p)) ->
+  nth_error h' l = nth_error h0 l.
+Proof. exact (ArgFrameProofs.frame_param p e0 h0 e' h' x l o). Qed.
+Print Assumptions arg_frame_param.
+
+(** MONOTONICITY.  The analysis is monotone in the abstract environment and in the accumulator, and replacing aliases /
+    views by fresh copies ([more_copies]: any number of [x := y] / [x := y[off:]] turned into [x := copy y], also inside
+    branches and call bodies) can only SHRINK the reported set. *)
+Theorem arg_analysis_monotone (p : ArgFrame.prog) (a a' : ArgFrame.aenv) (m m' : list ArgFrame.var) :
+  (forall x, incl (ArgFrame.aget x a) (ArgFrame.aget x a')) -> incl m m' ->
+  (forall x, incl (ArgFrame.aget x (fst (ArgFrame.an_prog p a m))) (ArgFrame.aget x (fst (ArgFrame.an_prog p a' m')))) /\
+  incl (snd (ArgFrame.an_prog p a m)) (snd (ArgFrame.an_prog p a' m')).
+Proof. exact (ArgFrameProofs.analysis_monotone p a a' m m'). Qed.
+Print Assumptions arg_analysis_monotone.
+
+Theorem arg_more_copies_shrinks (e0 : ArgFrame.env) (p p' : ArgFrame.prog) :
+  ArgFrame.more_copies p p' -> incl (ArgFrame.may_mutate e0 p') (ArgFrame.may_mutate e0 p).
+Proof. exact (ArgFrameProofs.more_copies_shrinks e0 p p'). Qed.
+Print Assumptions arg_more_copies_shrinks.
+
+(** A program without any in-place write (also inside branches and call bodies) is reported clean. *)
+Theorem arg_no_write_clean (e0 : ArgFrame.env) (p : ArgFrame.prog) :
+  ArgFrameProofs.no_write_prog p -> ArgFrame.may_mutate e0 p = [].
+Proof. exact (ArgFrameProofs.no_write_clean e0 p). Qed.
+Print Assumptions arg_no_write_clean.
+
+(** REFUTATION WITNESSES: the historical shapes (parameter 0 bound to the array [1; 2; 3] at location 0).  The analysis
+    flags them AND the execution really changes the caller's array:
+    - get_values:  [values = np.asarray(values); values[0] *= 2]           (write through an asarray alias);
+    - a slice:     [tail = position[1:]; tail[0] += 5]                     (basic slicing is a view);
+    - check_format on a CSR input: [adj = check(adjacency); adj[1] = 0] where [check] returns its own parameter;
+    - a Cython kernel that fills its memoryview, called on an alias of the argument. *)
+Theorem arg_asarray_alias_refuted :
+  ArgFrame.may_mutate ArgFrame.entry0 ArgFrame.prog_asarray = [0] /\
+  exists e' h', ArgFrame.exec_prog ArgFrame.prog_asarray (ArgFrame.entry0, ArgFrame.heap0) = Some (e', h') /\
+                nth_error h' 0 <> nth_error ArgFrame.heap0 0.
+Proof. exact ArgFrameProofs.asarray_alias_refuted. Qed.
+Print Assumptions arg_asarray_alias_refuted.
+
+Theorem arg_slice_view_refuted :
+  ArgFrame.may_mutate ArgFrame.entry0 ArgFrame.prog_slice = [0] /\
+  exists e' h', ArgFrame.exec_prog ArgFrame.prog_slice (ArgFrame.entry0, ArgFrame.heap0) = Some (e', h') /\
+                nth_error h' 0 <> nth_error ArgFrame.heap0 0.
+Proof. exact ArgFrameProofs.slice_view_refuted. Qed.
+Print Assumptions arg_slice_view_refuted.
+
+Theorem arg_passthrough_helper_refuted :
+  ArgFrame.may_mutate ArgFrame.entry0 ArgFrame.prog_helper = [0] /\
+  exists e' h', ArgFrame.exec_prog ArgFrame.prog_helper (ArgFrame.entry0, ArgFrame.heap0) = Some (e', h') /\
+                nth_error h' 0 <> nth_error ArgFrame.heap0 0.
+Proof. exact ArgFrameProofs.passthrough_helper_refuted. Qed.
+Print Assumptions arg_passthrough_helper_refuted.
+
+Theorem arg_kernel_write_refuted :
+  ArgFrame.may_mutate ArgFrame.entry0 ArgFrame.prog_kernel = [0] /\
+  exists e' h', ArgFrame.exec_prog ArgFrame.prog_kernel (ArgFrame.entry0, ArgFrame.heap0) = Some (e', h') /\
+                nth_error h' 0 <> nth_error ArgFrame.heap0 0.
+Proof. exact ArgFrameProofs.kernel_write_refuted. Qed.
+Print Assumptions arg_kernel_write_refuted.
+
+(** ... and the repaired variants (one [copy] added: [values.astype(float)], [position.copy()], a helper that returns
+    [sparse.csr_matrix(dense)]) are reported clean and leave the array as it was (non-vacuity of the frame theorem). *)
+Theorem arg_repaired_variants_clean :
+  ArgFrame.may_mutate ArgFrame.entry0 ArgFrame.prog_asarray_fixed = [] /\
+  ArgFrame.may_mutate ArgFrame.entry0 ArgFrame.prog_slice_fixed = [] /\
+  ArgFrame.may_mutate ArgFrame.entry0 ArgFrame.prog_helper_fixed = [] /\
+  (exists e' h', ArgFrame.exec_prog ArgFrame.prog_asarray_fixed (ArgFrame.entry0, ArgFrame.heap0) = Some (e', h') /\
+                 nth_error h' 0 = nth_error ArgFrame.heap0 0) /\
+  (exists e' h', ArgFrame.exec_prog ArgFrame.prog_slice_fixed (ArgFrame.entry0, ArgFrame.heap0) = Some (e', h') /\
+                 nth_error h' 0 = nth_error ArgFrame.heap0 0) /\
+  (exists e' h', ArgFrame.exec_prog ArgFrame.prog_helper_fixed (ArgFrame.entry0, ArgFrame.heap0) = Some (e', h') /\
+                 nth_error h' 0 = nth_error ArgFrame.heap0 0).
+Proof. exact ArgFrameProofs.repaired_variants_clean. Qed.
+Print Assumptions arg_repaired_variants_clean.
+
+Example arg_frame_nonvacuous :
+  ArgFrame.wf_entry ArgFrame.entry0 ArgFrame.heap0 /\
+  ArgFrame.more_copies ArgFrame.prog_asarray ArgFrame.prog_asarray_fixed /\
+  incl (ArgFrame.may_mutate ArgFrame.entry0 ArgFrame.prog_asarray_fixed) (ArgFrame.may_mutate ArgFrame.entry0 ArgFrame.prog_asarray) /\
+  ~ incl (ArgFrame.may_mutate ArgFrame.entry0 ArgFrame.prog_asarray) (ArgFrame.may_mutate ArgFrame.entry0 ArgFrame.prog_asarray_fixed).
+Proof.
+  split; [exact ArgFrameProofs.wf_entry0|]. split; [exact ArgFrameProofs.asarray_fixed_more_copies|].
+  exact ArgFrameProofs.asarray_report_strict.
+Qed.
+
+(** OBLIGATIONS on the facts re-extracted from /repo at every run (Gen/ArgMut.v).  Each entry = (public function,
+    parameter, "file:function" whose body writes through an alias of that parameter); the alias path and the very
+    statements, with their current line numbers, are in Gen/ArgMut.v.  The list below was reviewed entry by entry against
+    the code; a source edit that lets ANY public entry point (630 of them: functions, methods of public classes - each
+    class with the methods it inherits - and Cython kernels) write into a caller's object through a new (function,
+    parameter, writer) makes [reflexivity] fail.  Defects found by this list and repaired since: visualize_graph called
+    eliminate_zeros() on the caller's CSR matrix (c6c9d03d). *)
+Import String.StringSyntax.
+Local Open Scope string_scope.
+
+Theorem arg_mutations_reviewed :
+  map (fun e : String.string * String.string * String.string * String.string => let '(f, p, w, _) := e in (f, p, w)) ArgMut.arg_mutations =
+  [
+   (* in/out buffers of compiled kernels (Cython memoryviews filled by contract: labels, cluster weights, scores / fluid).  Internal
+      modules, not exported by any package __init__; NO Python-level caller reaches them with a caller-owned array - every call
+      site passes a fresh .astype(..) / np.zeros(..) / .copy() (otherwise an entry for that caller would be listed here);
+      count_cliques_from_dag is a cdef function (not callable from Python), box its own ListingBox. *)
+   ("classification.vote.vote_update", "labels", "sknetwork/classification/vote.pyx:vote_update");
+   ("clustering.leiden_core.optimize_refine_core", "cluster_weights", "sknetwork/clustering/leiden_core.pyx:optimize_refine_core");
+   ("clustering.leiden_core.optimize_refine_core", "in_cluster_weights", "sknetwork/clustering/leiden_core.pyx:optimize_refine_core");
+   ("clustering.leiden_core.optimize_refine_core", "labels_refined", "sknetwork/clustering/leiden_core.pyx:optimize_refine_core");
+   ("clustering.leiden_core.optimize_refine_core", "out_cluster_weights", "sknetwork/clustering/leiden_core.pyx:optimize_refine_core");
+   ("clustering.louvain_core.optimize_core", "cluster_weights", "sknetwork/clustering/louvain_core.pyx:optimize_core");
+   ("clustering.louvain_core.optimize_core", "in_cluster_weights", "sknetwork/clustering/louvain_core.pyx:optimize_core");
+   ("clustering.louvain_core.optimize_core", "labels", "sknetwork/clustering/louvain_core.pyx:optimize_core");
+   ("clustering.louvain_core.optimize_core", "out_cluster_weights", "sknetwork/clustering/louvain_core.pyx:optimize_core");
+   (* GNN: layer / optimizer OBJECTS handed to GNNClassifier are its trainable state by design (fit re-initialises the weights,
+      check_loss replaces the activation of the last layer by the matching loss, the optimizers rebind layer.weight / layer.bias);
+      these are attribute REBINDINGS on objects, no array the caller passed is written, and objects of this kind are not in the
+      property's list (matrices, label / weight / value arrays and dicts, feature matrices, initial positions). *)
+   ("gnn.gnn_classifier.GNNClassifier.__init__", "layers", "sknetwork/gnn/gnn_classifier.py:GNNClassifier.fit");
+   ("gnn.gnn_classifier.GNNClassifier.__init__", "layers", "sknetwork/gnn/utils.py:check_loss");
+   ("gnn.gnn_classifier.GNNClassifier.__init__", "optimizer", "sknetwork/gnn/gnn_classifier.py:GNNClassifier.fit");
+   ("gnn.optimizer.ADAM.step", "gnn", "sknetwork/gnn/optimizer.py:ADAM.step");
+   ("gnn.optimizer.GD.step", "gnn", "sknetwork/gnn/optimizer.py:GD.step");
+   ("gnn.utils.check_loss", "layer", "sknetwork/gnn/utils.py:check_loss");
+   (* get_dendrogram(tree, dendrogram, index, depth, size, copy_tree): the documented contract - "copy_tree: if True, ensure the
+      passed tree remains unchanged", i.e. by default the work list `tree` is consumed; dendrogram / index / size are the accumulators
+      "for recursive use" (index is an int: += rebinds).  Not exported by sknetwork.hierarchy; its only callers (LouvainHierarchy,
+      LouvainIteration) pass a tree they have just built.  The harness checks that copy_tree=True really protects the tree. *)
+   ("hierarchy.postprocess.get_dendrogram", "dendrogram", "sknetwork/hierarchy/postprocess.py:get_dendrogram");
+   ("hierarchy.postprocess.get_dendrogram", "index", "sknetwork/hierarchy/postprocess.py:get_dendrogram");
+   ("hierarchy.postprocess.get_dendrogram", "size", "sknetwork/hierarchy/postprocess.py:get_dendrogram");
+   ("hierarchy.postprocess.get_dendrogram", "tree", "sknetwork/hierarchy/postprocess.py:get_dendrogram");
+   (* compiled kernels, as above *)
+   ("linalg.diteration.diffusion", "fluid", "sknetwork/linalg/diteration.pyx:diffusion");
+   ("linalg.diteration.diffusion", "scores", "sknetwork/linalg/diteration.pyx:diffusion");
+   ("topology.cliques.count_cliques_from_dag", "box", "sknetwork/topology/cliques.pyx:count_cliques_from_dag");
+   ("topology.weisfeiler_lehman_core.weisfeiler_lehman_coloring", "labels", "sknetwork/topology/weisfeiler_lehman_core.pyx:weisfeiler_lehman_coloring");
+   (* svg_dendrogram_top / _left(..., width, height, ...): image width / height in pixels - numbers by contract (visualize_dendrogram passes
+      its float parameters): `width *= scale`, `height += 2 * margin` rebind the local name.  Not annotated, hence listed. *)
+   ("visualization.dendrograms.svg_dendrogram_left", "height", "sknetwork/visualization/dendrograms.py:svg_dendrogram_left");
+   ("visualization.dendrograms.svg_dendrogram_left", "width", "sknetwork/visualization/dendrograms.py:svg_dendrogram_left");
+   ("visualization.dendrograms.svg_dendrogram_top", "height", "sknetwork/visualization/dendrograms.py:svg_dendrogram_top");
+   ("visualization.dendrograms.svg_dendrogram_top", "width", "sknetwork/visualization/dendrograms.py:svg_dendrogram_top");
+   (* svg_text(pos, ...) shifts its own 2-vector `pos` by the text margin (helper, not exported by sknetwork.visualization); every caller
+      passes a row of the freshly built array returned by rescale() (np.vstack(..).T) - no entry for visualize_graph / visualize_bigraph. *)
+   ("visualization.graphs.svg_text", "pos", "sknetwork/visualization/graphs.py:svg_text")
+  ].
+Proof. reflexivity. Qed.
+Print Assumptions arg_mutations_reviewed.
+
+(** The same analysis when an argument may have ANY type, not only the documented (annotated) ones: one more writer,
+    get_norms (linalg/normalizer.py), which copies a csr_matrix, converts an ndarray, leaves a LinearOperator alone, and
+    for anything else - a SciPy sparse matrix that is not CSR - rebinds [.data] of the object it was given
+    ([input_matrix.data = np.abs(input_matrix.data)], [** 2] for p = 2).  get_norms / normalize document "numpy array or
+    sparse CSR matrix or LinearOperator", and so do the callers listed here (csr_matrix, or csr_matrix / LinearOperator);
+    inside sknetwork a non-CSR matrix only reaches normalize as a fresh [adjacency.T] / [input_matrix.T] object, whose
+    [.data] attribute is not the caller's.  Outside the property's quantifier (scope rule A3: documented input types);
+    pinned so that a new route to it is seen. *)
+Theorem arg_mutations_undocumented_types_reviewed :
+  map (fun e : String.string * String.string * String.string * String.string => let '(f, p, w, _) := e in (f, p, w)) ArgMut.arg_mutations_undocumented_types =
+  [
+   ("classification.knn.NNClassifier.fit", "input_matrix", "sknetwork/linalg/normalizer.py:get_norms");
+   ("classification.knn.NNClassifier.fit_predict<BaseClassifier>", "args", "sknetwork/linalg/normalizer.py:get_norms");
+   ("classification.knn.NNClassifier.fit_predict<BaseClassifier>", "kwargs", "sknetwork/linalg/normalizer.py:get_norms");
+   ("classification.knn.NNClassifier.fit_predict_proba<BaseClassifier>", "args", "sknetwork/linalg/normalizer.py:get_norms");
+   ("classification.knn.NNClassifier.fit_predict_proba<BaseClassifier>", "kwargs", "sknetwork/linalg/normalizer.py:get_norms");
+   ("classification.knn.NNClassifier.fit_transform<BaseClassifier>", "args", "sknetwork/linalg/normalizer.py:get_norms");
+   ("classification.knn.NNClassifier.fit_transform<BaseClassifier>", "kwargs", "sknetwork/linalg/normalizer.py:get_norms");
+   ("embedding.louvain_embedding.LouvainEmbedding.fit", "input_matrix", "sknetwork/linalg/normalizer.py:get_norms");
+   ("embedding.louvain_embedding.LouvainEmbedding.fit_transform<BaseEmbedding>", "args", "sknetwork/linalg/normalizer.py:get_norms");
+   ("embedding.louvain_embedding.LouvainEmbedding.fit_transform<BaseEmbedding>", "kwargs", "sknetwork/linalg/normalizer.py:get_norms");
+   ("embedding.svd.PCA.__init__", "solver", "sknetwork/linalg/normalizer.py:get_norms");
+   ("linalg.normalizer.get_norms", "matrix", "sknetwork/linalg/normalizer.py:get_norms");
+   ("linalg.normalizer.normalize", "matrix", "sknetwork/linalg/normalizer.py:get_norms");
+   ("linalg.ppr_solver.RandomSurferOperator.__init__", "adjacency", "sknetwork/linalg/normalizer.py:get_norms");
+   ("linalg.ppr_solver.get_pagerank", "adjacency", "sknetwork/linalg/normalizer.py:get_norms");
+   ("utils.tfidf.get_tfidf", "count_matrix", "sknetwork/linalg/normalizer.py:get_norms")
+  ].
+Proof. reflexivity. Qed.
+Print Assumptions arg_mutations_undocumented_types_reviewed.
+
+(** The scan is not vacuous: it covers the whole tree. *)
+Theorem arg_scan_coverage :
+  Nat.leb 800 ArgMut.n_functions_scanned = true /\ Nat.leb 600 ArgMut.n_public_entry_points = true.
+Proof. split; reflexivity. Qed.
+Print Assumptions arg_scan_coverage.
